@@ -74,6 +74,7 @@ static CoMsgList	messages	= 0;
 static int		nmessages       = 0;
 
 static int		nErrors		= 0;
+static int		nErrorsTotal	= 0;	/* never reset: all files of the invocation */
 static int		nWarnings	= 0;
 static int		nRemarks	= 0;
 static int		nNotes		= 0;
@@ -621,6 +622,16 @@ comsgErrorCount(void)
 	return nErrors;
 }
 
+/*
+ * Errors reported since the compiler started.  comsgErrorCount() restarts
+ * at zero for each file (and for each step of the interactive loop).
+ */
+int
+comsgErrorTotal(void)
+{
+	return nErrorsTotal;
+}
+
 
 /*****************************************************************************
  *
@@ -861,6 +872,7 @@ comsgVError(AbSyn ab, Msg msg, va_list argp)
 	CoMsg comsg;
 
 	nErrors++;
+	nErrorsTotal++;
 	comsg = comsgVDo(COMSG_ERROR, ab, msg, argp);
 	
 	if (nErrors == comsgErrorMax)
@@ -873,6 +885,7 @@ void
 comsgVFatal(AbSyn ab, Msg msg, va_list argp)
 {
 	nErrors++;
+	nErrorsTotal++;
 	comsgVDo(COMSG_FATAL, ab, msg, argp);
 	comsgFini();
 	exitFailure();
